@@ -84,7 +84,7 @@ def run(ctx):
     T = ctx.tables()
     ctx.regen({'AaTables.lean': tolean.aa_tables(T)})
     ctx.driver_path = ctx.driver()
-    broken = ctx.audit(THEOREMS)
+    broken = ctx.audit(THEOREMS, {'AaVerif.Props.Full.C09Full': ['C09Full.C09_capability_roundtrip_full', 'C09Full.C09_network_roundtrip_full', 'C09Full.C09_signal_roundtrip_full']})
     rng = ctx.rng
     g = R9.Gen9(rng, T)
     n = 6000 if ctx.tier == 'quick' else 150000
